@@ -1136,3 +1136,13 @@ def _const_builtin(val):
 # constants available in clauses (resolved in symexec.ev_Name through SPEC_CONSTS)
 SPEC_CONSTS = {"pi": PI, "FILL": -(2 ** 63), "INT_MAX": 2 ** 63 - 1, "INT_MIN": -(2 ** 63)}
 del SPEC_BUILTINS["pi"]
+
+
+@method("str", "call:lower")
+def str_lower(ex, obj, args, kwargs, node, env, fr):
+    return obj.lower()
+
+
+@method("str", "call:upper")
+def str_upper(ex, obj, args, kwargs, node, env, fr):
+    return obj.upper()
